@@ -262,6 +262,8 @@ pub use crate::stream::Stream;
 pub type VarlinkStream = Box<dyn Stream>;
 pub type ServerStream = Box<dyn Stream>;
 
+#[cfg(varlink_rust_verif)]
+pub use crate::server::verif;
 pub use crate::server::{listen, ListenConfig, Listener};
 
 #[macro_use]
